@@ -156,7 +156,7 @@ def get_bytes_from_code(code):
              compressed_bytes])
     else:
         # Use uncompressed.
-        code_bytes = bytes(code, 'ascii')
+        code_bytes = bytes(code)
 
     byte_array = bytearray(0x8000-0x4300)
     byte_array[:len(code_bytes)] = code_bytes
